@@ -55,6 +55,9 @@ class case_deadline(object):
         return False
 
 
+WALL_FACTOR = 4.0
+
+
 class Ctx(object):
     """One per worker.  All generators draw from ctx.rng (seeded from VERIF_SEED, shard)."""
 
@@ -85,7 +88,12 @@ class Ctx(object):
 
     # --------------------------------------------------------------- budget
     def time_left(self):
-        return self.budget_s - (time.process_time() - self.c0)
+        # CPU seconds left; on a machine so loaded (or with I/O so slow) that the CPU budget would take more than
+        # WALL_FACTOR times as long in wall-clock time the shard stops there instead (it then reports less work:
+        # the MIN thresholds decide whether that is still conclusive) - well before the runner's watchdog
+        cpu = self.budget_s - (time.process_time() - self.c0)
+        wall = self.budget_s * WALL_FACTOR - (time.time() - self.t0)
+        return min(cpu, wall)
 
     def out_of_time(self):
         return self.time_left() <= 0
